@@ -5,7 +5,7 @@
 # Date   : Feb 13, 2019
 """Helper methods for RTLIR."""
 
-from pymtl3.datatypes import is_bitstruct_class
+from pymtl3.datatypes import Bits, is_bitstruct_class
 
 from ..rtype.RTLIRDataType import get_rtlir_dtype
 
@@ -35,6 +35,9 @@ def get_component_full_name( c_rtype ):
       if is_bitstruct_class(obj):
         return get_rtlir_dtype( obj() ).get_name()
       return obj.__name__
+    # str() of a Bits value drops the width: Bits8(3) and Bits5(3) are '03'
+    if isinstance(obj, Bits):
+      return f"Bits{obj.nbits}_{obj}"
     return str( obj )
 
   comp_name = c_rtype.get_name()
